@@ -66,6 +66,10 @@ func checkC05(c *Ctx) {
 	c.As(map[string]string{"R6.2": "R5.12"}, func() { c6StdBridge(c, "R6.2", c5LevelValues(c)) })
 	c.Rule("R5.13", "wrapper cores (level filter, hooks, sampler) derive a wrapper of their own kind around the derived inner core: a child never loses the filter", 5)
 	c.As(map[string]string{"R7.4": "R5.13"}, func() { c7Wrappers(c) })
+	c.Rule("R5.16", "a printer installed by an option of the gRPC adapter pre-checks (Println) at the level its functions log at", 2)
+	c5GrpcPrinterOptions(c, "R5.16")
+	c.Rule("R5.15", "hooked.Check reads how many cores had accepted before it asks the wrapped core (read afterwards, the count includes the wrapped core and the hooks never fire behind an accepting tee branch)", 1)
+	c5HookedCountsBefore(c, "R5.15")
 	c.Rule("R5.14", "each method of the gRPC adapter logs through the delegate method of its own level (what V reports for a severity is then what decides the entry, and the entry carries that level)", 15)
 	c6GrpcRoutes(c, "R5.14")
 	c.Rule("R5.5", "CheckedEntry.Write in front ends only under ce != nil", 8)
@@ -1380,4 +1384,141 @@ func c5CheckDiscipline(c *Ctx) []*types.Named {
 	}
 
 	return impls
+}
+
+// c5HookedCountsBefore: hooked.Check decides "did the wrapped core accept?" by comparing the number of cores registered
+// on the checked entry before and after asking it. The "before" is read from the incoming entry ahead of the
+// delegation on every path (read afterwards it already includes the wrapped core - the incoming entry and the result
+// are the same object - and the hooks are silently skipped behind an accepting tee branch).
+func c5HookedCountsBefore(c *Ctx, rule string) {
+	fn := c.Method(CorePath, "hooked", "Check")
+	if !c.Anchor(rule, "zapcore.hooked.Check", fn != nil && len(fn.Params) == 3) {
+		return
+	}
+	ceP := fn.Params[2]
+	resolve := func(st *ConcState, v ssa.Value) ssa.Value {
+		for k := 0; k < 12; k++ {
+			nx := st.Step(v)
+			if nx == nil {
+				break
+			}
+			v = nx
+		}
+		return v
+	}
+	seqs, trunc := ConcPaths(fn, ConcCfg{
+		Init: func(st *ConcState) { st.SetNil(ceP, false) },
+		Event: func(in ssa.Instruction, st *ConcState) string {
+			switch x := in.(type) {
+			case *ssa.UnOp:
+				if fa, ok := x.X.(*ssa.FieldAddr); ok && x.Op == token.MUL && fieldName(fa.X.Type(), fa.Field) == "cores" && resolve(st, fa.X) == ssa.Value(ceP) {
+					return "count(incoming)"
+				}
+			case *ssa.Call:
+				if IsCallTo(x, "(go.uber.org/zap/zapcore.Core).Check") {
+					return "delegate"
+				}
+				if IsCallTo(x, "(*go.uber.org/zap/zapcore.CheckedEntry).AddCore") {
+					return "register"
+				}
+			}
+			return ""
+		},
+	})
+	var bad []string
+	nReg := 0
+	for _, sq := range seqs {
+		if !strings.Contains(sq, "register") {
+			continue
+		}
+		nReg++
+		i1, i2 := strings.Index(sq, "count(incoming)"), strings.Index(sq, "delegate")
+		// a design that needs no count (registers whenever the wrapped core's own answer says so) has no count at all
+		if i1 >= 0 && i2 >= 0 && i1 > i2 {
+			bad = append(bad, sq)
+		}
+	}
+	c.Check(!trunc && len(seqs) > 0 && nReg > 0 && len(bad) == 0, rule, FStr(fn), "counts-before-delegating", fn.Pos(), "with a non-nil incoming entry, on every path that registers the hooks the number of cores already accepted is read from the incoming entry before the wrapped core is asked (offending: %v)", bad)
+}
+
+// c5GrpcPrinterOptions: an option of the gRPC adapter that installs another printer (WithDebug, the unexported
+// withWarn) builds it consistently: print is the delegate's method of some level, printf the printf-style method of
+// the same level, and the printer's own level - what Println pre-checks - is evidently that level's constant. (A
+// printer copied from the default one keeps the default's level: Println then pre-checks Info and emits at Debug.)
+func c5GrpcPrinterOptions(c *Ctx, rule string) {
+	gp := "go.uber.org/zap/zapgrpc"
+	pr := c.Named(gp, "printer")
+	if !c.Anchor(rule, "zapgrpc.printer", pr != nil) {
+		return
+	}
+	lv := c5LevelValues(c)
+	n := 0
+	c.EachRootFunc(func(fn *ssa.Function) {
+		if fn.Pkg == nil || fn.Pkg.Pkg.Path() != gp || FNm(fn) == "NewLogger" {
+			return
+		}
+		stores := false
+		AllInstrs(fn, func(in ssa.Instruction) {
+			if x, ok := in.(*ssa.Store); ok {
+				if fa, isFA := x.Addr.(*ssa.FieldAddr); isFA && TypeName(deref(fa.X.Type())) == "zapgrpc.Logger" {
+					if w := fieldName(fa.X.Type(), fa.Field); w == "print" || w == "fatal" {
+						stores = true
+					}
+				}
+			}
+		})
+		if !stores {
+			return
+		}
+		n++
+		var bad []string
+		seqs, trunc := ConcPaths(fn, ConcCfg{
+			Event: func(in ssa.Instruction, st *ConcState) string {
+				x, ok := in.(*ssa.Store)
+				if !ok {
+					return ""
+				}
+				fa, isFA := x.Addr.(*ssa.FieldAddr)
+				if !isFA || TypeName(deref(fa.X.Type())) != "zapgrpc.Logger" {
+					return ""
+				}
+				which := fieldName(fa.X.Type(), fa.Field)
+				if which != "print" && which != "fatal" {
+					return ""
+				}
+				bound := func(f string) string {
+					_, _, v := st.FieldOf(x.Val, f)
+					for k := 0; v != nil && k < 16; k++ {
+						nx := st.Step(v)
+						if nx == nil {
+							break
+						}
+						v = nx
+					}
+					if mk, isMk := v.(*ssa.MakeClosure); isMk && len(mk.Bindings) == 1 {
+						return strings.TrimSuffix(mk.Fn.Name(), "$bound")
+					}
+					return "?"
+				}
+				p, pf := bound("print"), bound("printf")
+				k, isInt, _ := st.FieldOf(x.Val, "level")
+				want, known := lv[p]
+				switch {
+				case p == "?" && pf == "?":
+					// the other design: {the delegate, level}: nothing to keep consistent
+				case !known || pf != p+"f":
+					bad = append(bad, which+": print="+p+" printf="+pf+" are not the two methods of one level")
+				case !isInt:
+					bad = append(bad, which+": print="+p+" but the printer's level is not evidently set (a copy of another printer keeps that one's level)")
+				case k != want:
+					bad = append(bad, which+": print="+p+" but level="+itoa(int(k)))
+				}
+				return which
+			},
+		})
+		c.Check(!trunc && len(seqs) > 0 && len(bad) == 0, rule, FuncKey(fn), "printer-level-matches-functions", fn.Pos(), "the printer installed here logs (print, printf) and pre-checks (level) at one and the same level: %v", uniqSorted(bad))
+	})
+	if n < 2 {
+		c.Bad(rule, "zapgrpc options", "count", token.NoPos, "expected at least two options that install a printer (WithDebug, withWarn), found %d", n)
+	}
 }
